@@ -23,7 +23,7 @@ CLAIMED = {
             "4.C05"),
     "C10": ("contract proof: state accessors (getter/setters), __init__ model identity, _get_initial_state, for_instance cache invariant, is_active/State.__eq__; frame scan F1; bounded scenario layer; probe for writes to the state field from inside callbacks (outside EnvCB)",
             "4.C10"),
-    "C11": ("contract proof: BaseEngine.start two-case post, SyncEngine.start, activate_initial_state, empty-queue no-op clauses of processing_loop, __initial__ branch of _trigger",
+    "C11": ("contract proof: BaseEngine.start two-case post, SyncEngine.start, activate_initial_state, empty-queue no-op clauses of processing_loop, __initial__ branch of _trigger, BaseEngine._initial_transition over its real body (fresh external transition to the start state, no callbacks of its own) with State.__init__ and CallbackSpecList.clear under contract; bounded scenario layer and probes as cross-check",
             "4.C11"),
     "C06": ("Owicki-Gries outline over the contracts of put / try-acquire / popleft / release: interference obligations per role for the asyncio (await-atomic, AST-scanned premises) and thread models; the thread 'stranded' obligation is a recorded finding with a deterministic two-thread witness",
             "4.C06"),
@@ -43,7 +43,7 @@ CLAIMED = {
             "4.C15"),
     "C16": ("ownership frame scan over every heap write site of the package (committed ownership table; rebinding of module globals included; the cached event loop must be a threading.local) + StateMachine.__init__/BaseEngine.__init__ freshness clauses; BOUNDED API layer and signature special cases (one class body, one factory, one class name in two definitions); recorded witnesses",
             "4.C16"),
-    "C13": ("contract proof: post of send (the callee is a bound event of that name for EVERY string) over a symbolic attribute table; Event.__call__ queues exactly one item; Event.__get__; BOUNDED API layer for the listings (events, allowed_events, bind_events_to)",
+    "C13": ("contract proof: post of send (the callee is a bound event of that name for EVERY string) over a symbolic attribute table; a name that is not a declared event is never looked up on the machine (no property getter runs); Event.__call__ queues exactly one item; Event.__get__; probe with property-named strings; BOUNDED API layer for the listings (events, allowed_events, bind_events_to)",
             "4.C13"),
 }
 
